@@ -77,12 +77,13 @@ def mc_for(ctx, prop):
 def plans(prop, rng, S, clean):
     n = len(S)
     if prop == "C06":
-        return [{"filter": 7, "quit": rng.choice((0, 1)), "parsing": 1, "reads": 1}]
+        return [{"filter": 7, "quit": rng.choice((0, 1)), "parsing": 1, "reads": 1}, {"filter": 7, "quit": 2, "parsing": 1, "resume": 1}]
     if prop == "C07":
         p = [{"filter": 7, "quit": 1, "parsing": 1, "reads": 1},
              {"filter": rng.choice((0, 1, 2, 3, 4, 5, 6)), "quit": rng.choice((0, 1)), "parsing": rng.choice((0, 1)), "reads": 1}]
         if clean or n > 8:
             p += [{"filter": 7, "quit": 0, "parsing": 1}, {"filter": 7, "quit": 1, "parsing": 0, "handler": 0}]
+        p.append({"filter": 7, "quit": 2, "parsing": 1, "resume": 1})
         return p
     if prop == "C08":
         return [{"filter": rng.choice(range(8)), "quit": q, "parsing": rng.choice((0, 1)), "handler": rng.choice((0, 1))}
@@ -380,7 +381,32 @@ def reader_check(ctx, prop):
                 yield ("runs", {"prop": prop, "S": S.hex(), "recipe": [], "conf": 0, "streamkind": ("min", "bytesio")[k % 2],
                                 "plan": [{"filter": f, "quit": q, "parsing": 1, "handler": 1}] + [{"filter": f, "quit": q, "parsing": 1, "cut": c, "handler": 1} for c in cuts]})
 
+    def gen_huge():
+        """more than a MiB through ONE reader: over a socket whose segments end inside frames, and as one contiguous run of frames
+        the mask filters out between two wanted ones (byte counters, buffer compaction and skip limits only show at this size)"""
+        from ..common import frame as _frame
+
+        bigf = _frame(0x77, 0x05, bytes((k * 7) % 251 for k in range(64000)))
+        u1 = _frame(0x05, 0x01, b"\x06\x01")
+        nm = st.nmea_line("GNGLL,5327.04319,N,00214.41396,W,223232.00,A,A")
+        parts = [nm] + [bigf] * 17 + [nm, u1, nm]
+        S = b"".join(parts)
+        rec, pos = [], 0
+        for fr in parts:   # (a clean concatenation: the recipe says which frames lie where)
+            rec.append({"a": pos, "b": pos + len(fr), "p": "NMEA" if fr is nm else "UBX", "ok": -1, "dd": "", "fam": ""})
+            pos += len(fr)
+        if prop == "C09":
+            cuts = [len(S) - 3, len(S) - len(nm) - len(u1) - 1, len(S) // 2 + 5]
+            for kind, f in (("sock", 7), ("bytesio", 1)):
+                yield ("runs", {"prop": prop, "S": S.hex(), "recipe": rec, "conf": 0, "streamkind": kind,
+                                "plan": [{"filter": f, "quit": 1, "parsing": 1, "handler": 1}] + [{"filter": f, "quit": 1, "parsing": 1, "cut": c, "handler": 1} for c in cuts]})
+        else:
+            for kind in ("min", "sock"):
+                yield ("runs", {"prop": prop, "S": S.hex(), "recipe": rec, "plan": plans(prop, rng, S, True), "conf": 0, "streamkind": kind})
+
     neg = negfn_for(prop)
+    if prop in ("C07", "C09", "C11"):
+        run_batch(ctx, MODULE, CFG, gen_huge(), st.OBSERVERS, sigfn, neg, chunk=1, neg_every=1000)
     if prop in ("C07", "C11"):
         run_batch(ctx, MODULE, CFG, gen_pair(), st.OBSERVERS, sigfn, neg, chunk=40, neg_every=5)
     if prop == "C09":
